@@ -1,0 +1,9 @@
+//go:build verif
+
+package tcp
+
+// VerifClientHelloBufferSize exposes clientHelloBufferSize. Only compiled with the verif build tag.
+func VerifClientHelloBufferSize(data []byte) (int, error) { return clientHelloBufferSize(data) }
+
+// VerifReadServerName exposes readServerName. Only compiled with the verif build tag.
+func VerifReadServerName(msg []byte) (string, bool) { return readServerName(msg) }
